@@ -109,6 +109,56 @@ PROPS["C05"] = dict(
     explanation="",
 )
 
+PROPS["C09"] = dict(
+    modules=["common", "hdrs", "c03", "c02", "c05", "c09"],
+    contracts=["BaseSubpaths.__init__", "BaseSubpaths.search", "asgi.Subpaths.__call__", "wsgi.Subpaths.__call__",
+               "BaseHosts.search", "asgi.Hosts.__call__", "wsgi.Hosts.__call__"],
+    refute={"quick": [2], "thorough": [1, 2, 3]},
+    native="c09",
+    level="proof",
+    trusted=["A-py-1", "A-solver", "A-pyvc"],
+    level_text="search() returns the FIRST entry whose prefix equals the path or is followed by '/' in it (loop invariant over the "
+               "table, any length), None iff there is none; on a hit both Subpaths.__call__ hand the sub-application (an opaque "
+               "callable whose call is recorded in ghost state) root+prefix and path[len(prefix):] with root'+path' == root+path "
+               "(string lemma discharged by z3/cvc5 for all strings) and a remainder that is empty or starts with '/' (from the "
+               "constructor's class invariant), call it exactly once and emit nothing themselves; on a miss the request is "
+               "untouched (frame) and the bundled 404 response is emitted (its contract from C05). Nested mounts compose by "
+               "applying the same contract twice (lemma). Hosts: first pattern whose fullmatch accepts the Host value "
+               "(ASGI: last host header, default ''), else the 404 response.",
+    level_note="Trusted: compiled-pattern fullmatch is language membership (A-re-2, uninterpreted); the server's send / "
+               "start_response do not raise (A-server); sub-applications are opaque (their call is observed, their behaviour is "
+               "not constrained); `*routes` modelled as the list of its elements; lifespan scopes excluded (documented "
+               "RuntimeError).",
+    technique="deductive verification: first-match loop invariants, string lemma for the path rewrite, ghost call recorder, SMT (z3/cvc5)",
+    explanation="",
+)
+
+PROPS["C08"] = dict(
+    modules=["common", "hdrs", "c03", "c02", "c05", "c09", "c08"],
+    contracts=["BaseRouter.search", "asgi.Router.__call__", "wsgi.Router.__call__", "convertor.languages"],
+    no_refute=["convertor.languages"],
+    refute={"quick": [2], "thorough": [1, 2, 3]},
+    native="c08",
+    level="other",
+    trusted=["A-py-1", "A-solver", "A-pyvc"],
+    level_text="Mixed. PROVED: (1) the regex constant of every convertor class, read from the real source on each run and "
+               "translated to an SMT regular expression, denotes exactly the language of the statement (six language-equivalence "
+               "lemmas; a witness word is replayed through Route.matches); (2) BaseRouter.search returns the first route, in "
+               "declaration order, whose matches() accepts the path together with exactly its parameters, None iff none (loop "
+               "invariant, any table length); (3) both Router.__call__ store exactly those parameters, call exactly that "
+               "endpoint once and emit nothing themselves, else emit the bundled 404 and leave the request's parameters "
+               "untouched. BOUNDED (labelled): value conversion, to_string/to_python round trips, and that literal route text "
+               "is matched verbatim (pattern construction in Route.__init__/compile_path) are run-time checks of the real "
+               "code against a reference dispatcher over enumerated words/tables - Decimal/UUID/date are stdlib objects.",
+    level_note="Trusted: re fullmatch == language membership (A-re-2) and the regex->SMT translation of pyvc.regex (subset: classes, "
+               "ranges, groups, alternation, * + ? {n}); Route.matches is summarised for the router by uninterpreted "
+               "route_matches/route_params; int() of <= 4300 digits. Not proved: Route.__init__, compile_path, to_python / "
+               "to_string (bounded only).",
+    technique="deductive verification: language-equivalence lemmas over the real regex constants (SMT regex theory) + first-match loop invariant; bounded run-time contracts for conversion/round trip",
+    explanation="proved: convertor languages (6 lemmas), first-match search, parameter hand-off on both routers; bounded: value "
+                "conversion, round trips, verbatim literals (native reference dispatcher).",
+)
+
 NOT_APPLICABLE = {
     "C06": "quantifies over schedules/interleavings (relay thread vs consumer vs closer, asyncio tasks vs ping timer) and is a "
            "bounded-liveness claim; contracts over a sequential, await-erased semantics cannot express an interleaving and "
